@@ -539,7 +539,7 @@ def check_C01(ctx):
     kmax = ctx.n(3, 4)
     nshape = 0
     for k in range(1, kmax + 1):
-        for shape in all_shapes(k):
+        for shape in all_shapes(k, STACKED if k <= ctx.n(2, 3) else ('', 'not', 'paren')):
             nshape += 1
             lv = [('pr', [names[i]]) for i in range(k)]
             q = instantiate(shape, lv)
@@ -898,6 +898,31 @@ def check_C11(ctx):
         h = cs.hist(text, ops, 'hist')
         fresh = [cs.eval(text, o[1], 'hist-fresh') if o[0] == 'p' else None for o in ops]
         hs.append((h, ops, fresh))
+    # targeted: every ordered pair / selected triples of calls from a per-rule object pool,
+    # for rules mixing list literals (incl. out-of-range elements), nested paths and every
+    # literal kind; the pools contain calls that err, calls that panic and clean calls
+    T_RULES = ['x in [1, 2] or y in [3, 99999999999999999999]', 'x in ["u", "v"] or y in [3, 99999999999999999999]',
+               'a eq 1 or b.c eq 2', 'a eq 1 and b.c eq 2', 'a eq "s" or b.c pr', 'x in [1.5, 1.0e999] or y in [2.5]',
+               'a gt null or a eq 1', 'not (a co 1) and b eq 2', 'a eq 1.0.0 or b in ["p","q"]', 'a.b.c eq 1 or a.b eq 2 or a eq 3',
+               'k eq 99999999999999999999 or x in [1]', 'x in [1] and k eq 99999999999999999999', 's sw "a" or t in ["a"] or u in [1]',
+               'x eq 01', 'x eq 1 AND y eq 2']
+    T_OBJS = [obj({}), obj({'x': I(9)}), obj({'x': I(3), 'y': I(3)}), obj({'x': S('u')}), obj({'a': I(1)}), obj({'b': I(5)}),
+              obj({'b': {'c': I(2)}}), obj({'a': ('strpanic',), 'b': S('p')}), obj({'a': {'b': {'c': I(1)}}}), obj({'a': {'b': I(2)}}),
+              obj({'y': I(3), 'x': F(1.5)}), obj({'s': ('strpanic',), 't': S('a'), 'u': I(1)}), obj({'a': S('1.0.0'), 'b': S('Q')}),
+              obj({'k': I(1), 'x': I(1)}), obj({'a': I(3), 'b': I(2)})]
+    for text in T_RULES:
+        for o1 in T_OBJS:
+            for o2 in T_OBJS:
+                for mid in ((), (('r',),), (('d',),)) if ctx.rng.random() < ctx.n(0.25, 1.0) else ((),):
+                    ops = [('p', o1)] + list(mid) + [('p', o2), ('d',)]
+                    h = cs.hist(text, ops, 'hist-pairs')
+                    fresh = [cs.eval(text, o[1], 'hist-fresh') if o[0] == 'p' else None for o in ops]
+                    hs.append((h, ops, fresh))
+        for _ in range(ctx.n(20, 300)):
+            ops = [('p', ctx.rng.choice(T_OBJS)) if ctx.rng.random() < 0.8 else (ctx.rng.choice(['r', 'd']),) for _ in range(ctx.rng.randint(3, 8))]
+            h = cs.hist(text, ops, 'hist-targeted')
+            fresh = [cs.eval(text, o[1], 'hist-fresh') if o[0] == 'p' else None for o in ops]
+            hs.append((h, ops, fresh))
     res = ctx.run(cs)
     ctx.compare([c for c in cs.cases if c.kind == 'hist'], res, ['out'], nontrivial=lambda c, mo: True)
     for h, ops, fresh in hs:
